@@ -583,7 +583,8 @@ func (s *Serializer) Deserialize(src []byte, dst *ParsedJson) (*ParsedJson, erro
 	values := s.valuesBuf
 	nSkips := 0
 	for _, t := range s.tagsBuf {
-		if off == len(dst.Tape) {
+		// Skips we owe also occupy tape entries.
+		if off+nSkips >= len(dst.Tape) {
 			return dst, errors.New("tags extended beyond tape")
 		}
 		tag := Tag(t)
@@ -604,6 +605,9 @@ func (s *Serializer) Deserialize(src []byte, dst *ParsedJson) (*ParsedJson, erro
 			if len(values) < 16 {
 				return dst, fmt.Errorf("reading %v: no values left", tag)
 			}
+			if off+1 >= len(dst.Tape) {
+				return dst, fmt.Errorf("reading %v: value extends beyond tape", tag)
+			}
 			sOffset := binary.LittleEndian.Uint64(values[:8])
 			sLen := binary.LittleEndian.Uint64(values[8:16])
 			values = values[16:]
@@ -615,6 +619,9 @@ func (s *Serializer) Deserialize(src []byte, dst *ParsedJson) (*ParsedJson, erro
 			if len(values) < 8 {
 				return dst, fmt.Errorf("reading %v: no values left", tag)
 			}
+			if off+1 >= len(dst.Tape) {
+				return dst, fmt.Errorf("reading %v: value extends beyond tape", tag)
+			}
 			dst.Tape[off] = tagDst
 			dst.Tape[off+1] = binary.LittleEndian.Uint64(values[:8])
 			values = values[8:]
@@ -624,7 +631,13 @@ func (s *Serializer) Deserialize(src []byte, dst *ParsedJson) (*ParsedJson, erro
 			if len(values) < 16 {
 				return dst, fmt.Errorf("reading %v: no values left", tag)
 			}
+			if off+1 >= len(dst.Tape) {
+				return dst, fmt.Errorf("reading %v: value extends beyond tape", tag)
+			}
 			dst.Tape[off] = binary.LittleEndian.Uint64(values[:8])
+			if Tag(dst.Tape[off]>>JSONTAGOFFSET) != TagFloat {
+				return dst, fmt.Errorf("reading %v: stored tape entry is not a float", tag)
+			}
 			dst.Tape[off+1] = binary.LittleEndian.Uint64(values[8:16])
 			values = values[16:]
 			off += 2
@@ -639,7 +652,7 @@ func (s *Serializer) Deserialize(src []byte, dst *ParsedJson) (*ParsedJson, erro
 			val := binary.LittleEndian.Uint64(values[:8])
 			values = values[8:]
 			val += uint64(off)
-			if val > uint64(len(dst.Tape)) {
+			if val > uint64(len(dst.Tape)) || val < uint64(off)+2 {
 				return dst, fmt.Errorf("%v extends beyond tape (%d). offset:%d", tag, len(dst.Tape), val)
 			}
 
